@@ -7,5 +7,3 @@ Fixpoint find_bad (P : st -> bool) (d : nat) (s : st) (path : list ev) : option 
   match d with O => None | S d' =>
     (fix go (es : list ev) := match es with [] => None | e :: r =>
         match find_bad P d' (step s e) (e :: path) with Some p => Some p | None => go r end end) alphabet end.
-Time Eval vm_compute in find_bad c13 6 (init repaired) [].
-Time Eval vm_compute in find_bad c13 4 (init as_is) [].
